@@ -23,9 +23,10 @@ def main():
   p = os.path.join(VERIF, "not_applicable.json")
   if os.path.exists(p):
     extra_na = json.load(open(p))
+  ready = set(open(os.path.join(VERIF, "ready.txt")).read().split())
   for pid in ids:
     path = os.path.join(HERE, "props", pid + ".py")
-    if not os.path.exists(path) or pid in extra_na:
+    if not os.path.exists(path) or pid in extra_na or pid not in ready:
       na.append({"property_id": pid, "reason": extra_na.get(pid, NOT_BUILT)})
       continue
     src = open(path).read()
